@@ -166,7 +166,11 @@ func (p *Parser) block() (StatementBlock, error) {
 			return StatementBlock{}, err
 		}
 		block = append(block, statement)
-		if !p.atStatementEnd() {
+		ended, err := p.atStatementEnd()
+		if err != nil {
+			return StatementBlock{}, err
+		}
+		if !ended {
 			return StatementBlock{}, p.error(p.current.Pos, "unexpected end of input")
 		}
 	}
@@ -193,7 +197,11 @@ func (p *Parser) statement() (Statement, error) {
 		if err := p.consume(Return); err != nil {
 			return nil, err
 		}
-		if !p.atStatementEnd() {
+		ended, err := p.atStatementEnd()
+		if err != nil {
+			return nil, err
+		}
+		if !ended {
 			expr, err := p.expression()
 			if err != nil {
 				return nil, err
@@ -278,14 +286,18 @@ func (p *Parser) statement() (Statement, error) {
 			if p.current.Tag == In || p.current.Tag == Comma {
 				var indexIdent *ExprIdentifier
 				if p.current.Tag == Comma {
-					p.consume(Comma)
+					if err := p.consume(Comma); err != nil {
+						return nil, err
+					}
 					if err := p.consume(Ident); err != nil {
 						return nil, err
 					}
 					indexIdent = &ExprIdentifier{*p.previous}
 				}
 
-				p.consume(In)
+				if err := p.consume(In); err != nil {
+					return nil, err
+				}
 				expr, err := p.expression()
 				if err != nil {
 					return nil, err
@@ -342,22 +354,30 @@ func (p *Parser) statement() (Statement, error) {
 		if !p.inLoop {
 			return nil, p.error(p.current.Pos, "can only break inside a loop")
 		}
-		p.consume(Break)
+		if err := p.consume(Break); err != nil {
+			return nil, err
+		}
 		stmt := StatementBreak{*p.previous}
 		return &stmt, nil
 	case Continue:
 		if !p.inLoop {
 			return nil, p.error(p.current.Pos, "can only continue inside a loop")
 		}
-		p.consume(Continue)
+		if err := p.consume(Continue); err != nil {
+			return nil, err
+		}
 		stmt := StatementContinue{*p.previous}
 		return &stmt, nil
 	case Next:
-		p.consume(Next)
+		if err := p.consume(Next); err != nil {
+			return nil, err
+		}
 		stmt := StatementNext{*p.previous}
 		return &stmt, nil
 	case Exit:
-		p.consume(Exit)
+		if err := p.consume(Exit); err != nil {
+			return nil, err
+		}
 		stmt := StatementExit{*p.previous}
 		return &stmt, nil
 	default:
@@ -387,38 +407,53 @@ func (p *Parser) printStatement() (StatementPrint, error) {
 	startToken := *p.previous
 
 	args := make([]Expr, 0)
-	for !p.atStatementEnd() {
+	for {
+		ended, err := p.atStatementEnd()
+		if err != nil {
+			return StatementPrint{}, err
+		}
+		if ended {
+			break
+		}
 		expr, err := p.expression()
 		if err != nil {
 			return StatementPrint{}, err
 		}
 		args = append(args, expr)
 		if p.current.Tag == Comma {
-			p.consume(Comma)
+			if err := p.consume(Comma); err != nil {
+				return StatementPrint{}, err
+			}
 		} else {
 			break
 		}
 	}
 
-	if p.atStatementEnd() {
+	ended, err := p.atStatementEnd()
+	if err != nil {
+		return StatementPrint{}, err
+	}
+	if ended {
 		p.didEndStatement = true
 	}
 	return StatementPrint{startToken, args}, nil
 }
 
-func (p *Parser) atStatementEnd() bool {
+func (p *Parser) atStatementEnd() (bool, error) {
 	if p.didEndStatement {
-		return true
+		return true, nil
 	}
 
 	switch p.current.Tag {
 	case RCurly:
-		return true
+		return true, nil
 	case SemiColon:
-		p.consume(SemiColon)
-		return true
+		if err := p.consume(SemiColon); err != nil {
+			return false, err
+		}
+		return true, nil
 	default:
-		return false
+		return false, nil
 	}
 }
 
@@ -583,7 +618,9 @@ func (p *Parser) evalExprList(endToken TokenTag) ([]Expr, error) {
 		}
 		args = append(args, expr)
 		if p.current.Tag == Comma {
-			p.consume(Comma)
+			if err := p.consume(Comma); err != nil {
+				return nil, err
+			}
 		} else {
 			break
 		}
@@ -648,7 +685,9 @@ func match(p *Parser) (Expr, error) {
 			if p.current.Tag != Comma {
 				break
 			}
-			p.consume(Comma)
+			if err := p.consume(Comma); err != nil {
+				return nil, err
+			}
 		}
 
 		if err := p.consume(Arrow); err != nil {
@@ -934,7 +973,9 @@ func (p *Parser) parseFunction() (ExprFunction, error) {
 		str := p.lexer.GetString(p.previous)
 		args = append(args, str)
 		if p.current.Tag == Comma {
-			p.consume(Comma)
+			if err := p.consume(Comma); err != nil {
+				return ExprFunction{}, err
+			}
 		}
 	}
 
